@@ -386,13 +386,19 @@ class InnerPostponer:
         self.base = base
         self.w = w
         self.ctx = ctx
-        self.attempts = weakref.WeakKeyDictionary()  # per model object: every (re)load of a file starts afresh
+        # per model *object* (every (re)load of a file starts afresh).  Keyed by id() and verified through a weak
+        # reference: a WeakKeyDictionary goes by __eq__/__hash__, and models of a value-equal user class would share one
+        # entry that vanishes whenever the first of them is collected (met in the soak: a batch-only failure)
+        self.attempts = {}
 
     def __call__(self, obj, attr, obj_ref):
         m = textx.get_model(obj)
         if obj is not m:
             key = (fname(m), obj_ref.position)
-            per_model = self.attempts.setdefault(m, {})
+            e = self.attempts.get(id(m))
+            if e is None or e[0]() is not m:
+                e = self.attempts[id(m)] = (weakref.ref(m), {})
+            per_model = e[1]
             n = per_model[key] = per_model.get(key, 0) + 1
             # (not while a reference is scripted to stay unresolvable: the resolver stops at the first round without
             # progress and reports everything still pending, the expected report would depend on the mix)
